@@ -5,6 +5,8 @@ import (
 	"context"
 	"crypto/sha256"
 	"fmt"
+	"math"
+	"math/big"
 	"os"
 	"path/filepath"
 	"regexp"
@@ -372,6 +374,14 @@ func c19Worker(seed int64, id int, useUDP bool, concurrent bool) (transcript []s
 				if rd, err := bmc.NewSensorReader(&fr); err == nil {
 					v, err := rd.Read(ctx, sess)
 					rec("sensor", v, err)
+					// the reading is this BMC's raw byte converted with this BMC's record (linear, two's
+					// complement): every BMC of the fleet has a sensor with the same key and other factors
+					x := int64(int8(byte(0x30 + id)))
+					lin := new(big.Rat).Mul(new(big.Rat).Add(new(big.Rat).SetInt64(int64(fr.M)*x), new(big.Rat).Mul(new(big.Rat).SetInt64(int64(fr.B)), pow10Rat(int(fr.BExp)))), pow10Rat(int(fr.RExp)))
+					want, _ := lin.Float64()
+					if err == nil && math.Abs(v-want) > 1e-9*math.Max(1, math.Abs(want)) {
+						transcript = append(transcript, fmt.Sprintf("%ssensor reading converted to %v, this worker's BMC and record give %v (M %d B %d exponents %d %d raw %#x)", c19Absolute, v, want, fr.M, fr.B, fr.BExp, fr.RExp, byte(0x30+id)))
+					}
 				}
 			}
 		case 8:
